@@ -119,7 +119,12 @@ def run_threads(scn, observers=()):
         res.blocked = err.blocked
         world.log("DEADLOCK", tuple((n, repr(b)) for n, b in err.blocked))
     elif isinstance(err, StepCap):
-        res.error = "stepcap"
+        if getattr(err, "spinning", None):
+            res.error = "deadlock"
+            res.blocked = err.spinning
+            world.log("LIVELOCK", tuple((n, repr(b)) for n, b in res.blocked))
+        else:
+            res.error = "stepcap"
     for t in sched.threads:
         if t.exc is not None:
             # an exception escaping a caller script (not a request outcome) is a
